@@ -83,6 +83,9 @@ def propagate_fft(wavefront, pixelscale, shape=None, oversample=2,
         field = lentil.pad(wavefront.field, fft_shape)
         field = _fft2(field)
     
+    # keep only the requested window: the Wavefront's shape is shape_out, and
+    # whatever is appended here is what a later propagation starts from
+    field = lentil.pad(field, shape_out)
     out.data.append(Field(data=field, pixelscale=pixelscale/oversample))
 
     return out
